@@ -453,6 +453,25 @@ def _get_template(val: BaseValue) -> set[str]:
     return set()
 
 
+def _get_template_items(param: BaseValue | None) -> list[BaseValue]:
+  """Type parameters of a base class argument, e.g. [T] for List[T]."""
+  if isinstance(param, _abstract.TypeParameter):
+    return [param]
+  elif isinstance(param, _abstract.ParameterizedClass):
+    items = []
+    for item in param.template:
+      items.extend(
+          _get_template_items(param.formal_type_parameters.get(item.name))
+      )
+    return items
+  elif isinstance(param, _abstract.Union):
+    items = []
+    for option in param.options:
+      items.extend(_get_template_items(option))
+    return items
+  return []
+
+
 def _compute_template(val: BaseValue) -> Sequence[BaseValue]:
   """Compute the precedence list of template parameters according to C3.
 
@@ -510,8 +529,8 @@ def _compute_template(val: BaseValue) -> Sequence[BaseValue]:
         if isinstance(base, _abstract.ParameterizedClass):
           for item in base.template:
             param = base.formal_type_parameters.get(item.name)
-            if isinstance(base, _abstract.TypeParameter):
-              t = param.with_scope(val.full_name)
+            for type_param in _get_template_items(param):
+              t = type_param.with_scope(val.full_name)
               if t not in template:
                 raise abstract_utils.GenericTypeError(
                     val, "Generic should contain all the type variables"
@@ -524,8 +543,10 @@ def _compute_template(val: BaseValue) -> Sequence[BaseValue]:
         seq = []
         for item in base.template:
           param = base.formal_type_parameters.get(item.name)
-          if isinstance(param, _abstract.TypeParameter):
-            seq.append(param.with_scope(val.full_name))
+          for type_param in _get_template_items(param):
+            t = type_param.with_scope(val.full_name)
+            if t not in seq:
+              seq.append(t)
         seqs.append(seq)
     try:
       template.extend(mro.MergeSequences(seqs))
